@@ -117,6 +117,13 @@ fn roll_replay(path: &[u8]) -> Result<(), String> {
     if it1 != r || it2 != r {
         return Err(format!("update_by_iter with an inexact size hint differs from byte-wise after {}", hex(path)));
     }
+    // an iterator that is not fused (the bytes, `None`, then junk), passed by `&mut`: the sequence ends at the first `None`
+    let mut nf = crate::gen_util::NotFused::new(path);
+    let mut it3 = RollingHash::new();
+    it3.update_by_iter(&mut nf);
+    if it3 != r {
+        return Err(format!("update_by_iter(&mut not-fused iterator) differs from byte-wise after {} (polled {} times after the end)", hex(path), nf.polled_after_end));
+    }
     // += &[u8; N] for N = 2..=16 at the end of the path, after a byte-wise prefix
     macro_rules! arr_tail {
         ($($n:expr),*) => {$(
@@ -263,6 +270,12 @@ fn fnv_replay(path: &[u8]) -> Result<(), String> {
     it2.update_by_iter(doubled.iter().filter(|x| x.0).map(|x| x.1));
     if it1.value() != h.value() || it2.value() != h.value() {
         return Err(format!("update_by_iter with an inexact size hint differs from byte-wise after {}", hex(path)));
+    }
+    let mut nf = crate::gen_util::NotFused::new(path);
+    let mut it3 = PartialFNVHash::new();
+    it3.update_by_iter(&mut nf);
+    if it3.value() != h.value() {
+        return Err(format!("update_by_iter(&mut not-fused iterator) differs from byte-wise after {} (polled {} times after the end)", hex(path), nf.polled_after_end));
     }
     Ok(())
 }
